@@ -379,3 +379,228 @@ Proof.
     rewrite A1, A2, T1, Z.eqb_refl, <- T1, T0. reflexivity. }
   intros v Ev [Sv _]. exact (Rp v Ev Sv).
 Qed.
+
+(* ---- the kinds that emit no undo event (toggles, the alias of rParams) ---- *)
+Lemma plain_step : forall k e loc m st args st' outs,
+  (k = KT \/ k = KAT \/ exists len, k = KPS len) -> loc <> undo_path ->
+  SugarModel.step k e loc m st args = Some (st', outs) ->
+  undo_events outs = [] /\ length st' = length st.
+Proof.
+  intros k e loc m st args st' outs Hk Hloc H.
+  assert (Q : forall x, is_undo (Reply (mk loc x)) = false) by (intro x; apply is_undo_query; exact Hloc).
+  destruct Hk as [Hk|[Hk|[len Hk]]]; subst k; cbn [SugarModel.step] in H.
+  - unfold scalar in H. destruct st as [|v [|w r]]; try discriminate.
+    destruct (rToggleCb e loc v args) as [[v' o]|] eqn:E; [|discriminate]. inversion H; subst st' outs.
+    split; [|reflexivity]. unfold rToggleCb in E.
+    destruct args as [|a [|b r]]; try discriminate.
+    + inversion E; subst. unfold undo_events. cbn [filter]. rewrite Q. reflexivity.
+    + destruct (arg_T a); [|discriminate]. destruct (negb (v =? z)); inversion E; reflexivity.
+  - unfold rArrayTCb, at_idx in H.
+    destruct (nth_error st (Z.to_nat (boils_idx e m))) as [cur|]; [|discriminate].
+    destruct (rArrayTCb_elem e loc cur args) as [[v' o]|] eqn:E; [|discriminate]. inversion H; subst st' outs.
+    split; [|apply length_upd]. unfold rArrayTCb_elem in E.
+    destruct args as [|a [|b r]]; try discriminate.
+    + inversion E; subst. unfold undo_events. cbn [filter]. rewrite Q. reflexivity.
+    + destruct (arg_T a); [|discriminate]. destruct (negb (cur =? z)); inversion E; reflexivity.
+  - unfold rParamsCb in H. destruct args; [|discriminate].
+    destruct (Z.of_nat (length st) <? len); [discriminate|]. inversion H; subst st' outs.
+    split; [|reflexivity]. unfold undo_events. cbn [filter]. rewrite Q. reflexivity.
+Qed.
+
+(* ---- the invariant of an end-to-end history ---- *)
+Definition cells_ok (t : table) : Prop := Forall contents_ok t.
+Definition table_ok (ps : list port) : Prop := Forall port_ok ps /\ uniq ps.
+
+(* a retained event replays: its address is answered by an undoable port of the
+   table, it carries that port's own type tag, both values are stored as they are *)
+Definition ev_ok (ps : list port) (U : list str) (e : ev) : Prop :=
+  exists path c idx, eaddr e = 47 :: path /\ mem path U = true /\ In c ps /\
+    addr_match c path = Some idx /\ undoable (pk c) = true /\
+    ety e = tag (event_arg (pk c) 0) /\ good c (eold e) /\ good c (enew e).
+
+Definition pinv (ps : list port) (U : list str) (st : table * hstate) : Prop :=
+  ports (fst st) = ps /\ cells_ok (fst st) /\ e_inv (abs U (fst st), snd st) /\
+  Forall (ev_ok ps U) (hist (snd st)).
+
+(* the operations of the quantifier: addresses from U, never "/undo_change";
+   what reaches a port is a set message the port's kind is driven with (C14's
+   quantifier), float values canonical; the clock does not run backwards *)
+Definition pop_ok (ps : list port) (U : list str) (o : pop) : Prop :=
+  match o with
+  | PTick d => 0 <= d
+  | PSeek _ => True
+  | PSet path args =>
+    mem path U = true /\ 47 :: path <> undo_path /\
+    forall c, In c ps -> port_match c path args = true ->
+              conf (pe c) (pk c) args /\ args_canon (pk c) args
+  end.
+
+Lemma mem_In : forall p U, mem p U = true -> In p U.
+Proof.
+  induction U as [|q r IH]; intro H; [discriminate|]. cbn [mem] in H.
+  apply orb_true_iff in H. destruct H as [H|H]; [left; symmetry; apply str_eqb_eq; exact H|right; apply IH; exact H].
+Qed.
+
+Lemma owner_unique : forall ps c c' path, uniq ps -> In c ps -> In c' ps ->
+  owns c path = true -> owns c' path = true -> c = c'.
+Proof.
+  induction ps as [|x r IH]; intros c c' path Hu Hc Hc' Ho Ho'; [destruct Hc|].
+  destruct Hu as [Hx Hr].
+  assert (Q : forall y, In y r -> owns x path = true -> owns y path = true -> False).
+  { intros y Hy H1 H2. pose proof (Hx path H1) as F. rewrite forallb_forall in F.
+    specialize (F y Hy). rewrite H2 in F. discriminate. }
+  destruct Hc as [Hc|Hc]; destruct Hc' as [Hc'|Hc']; subst.
+  - reflexivity.
+  - exfalso. exact (Q c' Hc' Ho Ho').
+  - exfalso. exact (Q c Hc Ho' Ho).
+  - exact (IH c c' path Hr Hc Hc' Ho Ho').
+Qed.
+
+Lemma e_inv_ext : forall f g s, e_inv (f, s) -> (forall a, g a = f a) -> e_inv (g, s).
+Proof.
+  intros f g s (Hi & base & Hc & Hf) E. split; [exact Hi|]. exists base. split; [exact Hc|].
+  intro a. rewrite E. apply Hf.
+Qed.
+
+Lemma ports_replace : forall t1 c st st' t2,
+  ports (t1 ++ (c, st') :: t2) = ports (t1 ++ (c, st) :: t2).
+Proof. intros. unfold ports. rewrite !map_app. reflexivity. Qed.
+
+Lemma cells_replace : forall t1 c st st' t2,
+  cells_ok (t1 ++ (c, st) :: t2) -> contents_ok (c, st') -> cells_ok (t1 ++ (c, st') :: t2).
+Proof.
+  intros t1 c st st' t2 H Hc. unfold cells_ok in *. apply Forall_app in H. destruct H as [H1 H2].
+  apply Forall_app. split; [exact H1|]. inversion H2; subst. constructor; assumption.
+Qed.
+
+(* the abstract store after the cell's entry for the address changed *)
+Lemma abs_update : forall ps U t1 c st st' t2 path idx new,
+  one_spelling ps U -> In c ps -> mem path U = true ->
+  addr_match c path = Some idx ->
+  forallb (fun c' => negb (owns c' path)) (ports t1) = true ->
+  cell_value (c, st') path = Some new ->
+  (forall p' i', addr_match c p' = Some i' -> idx_of (pk c) i' <> idx_of (pk c) idx ->
+                 cell_value (c, st') p' = cell_value (c, st) p') ->
+  forall a, abs U (t1 ++ (c, st') :: t2) a = upd (abs U (t1 ++ (c, st) :: t2)) (47 :: path) new a.
+Proof.
+  intros ps U t1 c st st' t2 path idx new H1s Hin Hm Ha Hn1 Hv Hfr a.
+  assert (Ho : owns c path = true) by (unfold owns; rewrite Ha; reflexivity).
+  unfold upd. destruct (addr_eqb a (47 :: path)) eqn:E.
+  - apply addr_eqb_eq in E. subst a. unfold abs. rewrite Z.eqb_refl, Hm. cbn [andb].
+    rewrite (lookup_here t1 c st' t2 path Hn1 Ho), Hv. reflexivity.
+  - apply addr_eqb_neq in E. unfold abs. destruct a as [|x p']; [reflexivity|].
+    destruct ((x =? 47) && mem p' U) eqn:G; [|reflexivity].
+    apply andb_true_iff in G. destruct G as [Gx Gm]. apply Z.eqb_eq in Gx. subst x.
+    assert (Hne : p' <> path) by (intro F; apply E; subst; reflexivity).
+    destruct (owns c p') eqn:Op.
+    + unfold owns in Op. destruct (addr_match c p') as [i'|] eqn:Ap; [|discriminate].
+      assert (Hd : idx_of (pk c) i' <> idx_of (pk c) idx).
+      { intro F. apply Hne. exact (H1s c p' path i' idx Hin (mem_In _ _ Gm) (mem_In _ _ Hm) Ap Ha F). }
+      assert (EL : lookup (t1 ++ (c, st') :: t2) p' = lookup (t1 ++ (c, st) :: t2) p').
+      { apply lookup_same_cell; [unfold owns; rewrite Ap; reflexivity|exact (Hfr p' i' Ap Hd)]. }
+      rewrite EL. reflexivity.
+    + assert (EL : lookup (t1 ++ (c, st') :: t2) p' = lookup (t1 ++ (c, st) :: t2) p')
+        by (apply lookup_other; exact Op).
+      rewrite EL. reflexivity.
+Qed.
+
+(* the events after a record *)
+Lemma record_events : forall (P : ev -> Prop) a ty old nw s,
+  pos_ok s -> time_inv s -> Forall P (hist s) ->
+  (forall h, In h (hist s) -> eaddr h = a -> P (mkEv (clock s) a ty (eold h) nw)) ->
+  P (mkEv (clock s) a ty old nw) ->
+  Forall P (hist (record a ty old nw s)).
+Proof.
+  intros P a ty old nw s Hok Ht Hall Hm Hn.
+  assert (Hf : Forall P (firstn (pos s) (hist s))) by (apply Forall_firstn; exact Hall).
+  destruct (record_cases a ty old nw s Hok Ht) as [(l1 & h & l2 & E & Ea & _ & R)|R].
+  - rewrite R. cbn [hist]. rewrite E in Hf. apply Forall_app in Hf. destruct Hf as [F1 F2].
+    inversion F2; subst. apply Forall_app. split; [exact F1|]. constructor; [|assumption].
+    unfold merged. apply Hm; [|reflexivity].
+    assert (Hi : In h (firstn (pos s) (hist s))) by (rewrite E; apply in_or_app; right; left; reflexivity).
+    rewrite <- (firstn_skipn (pos s) (hist s)). apply in_or_app. left. exact Hi.
+  - cbv zeta in R. rewrite R.
+    assert (Hx : Forall P (firstn (pos s) (hist s) ++ [mkEv (clock s) a ty old nw])).
+    { apply Forall_app. split; [exact Hf|]. constructor; [exact Hn|constructor]. }
+    destruct (Nat.ltb _ _); cbn [hist]; [apply Forall_tl|]; exact Hx.
+Qed.
+
+(* ---- a set message keeps the invariant ---- *)
+Lemma pset_inv : forall ps U t s path args t' s' ms n,
+  table_ok ps -> one_spelling ps U -> pinv ps U (t, s) -> pop_ok ps U (PSet path args) ->
+  pstep (t, s) (PSet path args) = Some ((t', s'), ms, n) -> pinv ps U (t', s').
+Proof.
+  intros ps U t s path args t' s' ms n [Hpo Hun] H1s (Hps & Hcells & Hei & Hev) (Hm & Hloc & Hconf) H.
+  cbn [fst snd] in Hps, Hcells, Hei, Hev.
+  cbn [pstep] in H.
+  destruct (dispatch t path args) as [[[t1' outs] n']|] eqn:D; [|discriminate].
+  destruct (record_outs s outs) as [s1|] eqn:R; [|discriminate]. inversion H; subst t1' s1 ms n'. clear H.
+  assert (Same : t' = t -> outs = [] -> pinv ps U (t', s')).
+  { intros Et Eo. subst t' outs. cbn in R. inversion R; subst s'.
+    split; [exact Hps|]. split; [exact Hcells|]. split; assumption. }
+  assert (Hu : uniq (ports t)) by (rewrite Hps; exact Hun).
+  destruct (locate t path Hu) as [Hn|t1 c st t2 Et Ho Hn1 Hn2].
+  - rewrite (dispatch_miss t path args Hn) in D. inversion D; subst. apply Same; reflexivity.
+  - subst t. rewrite (dispatch_here t1 c st t2 path args Hn1 Hn2) in D.
+    destruct (port_match c path args) eqn:PM; [|inversion D; subst; apply Same; reflexivity].
+    destruct (SugarModel.step (pk c) (pe c) (47 :: path) path st args) as [[st' o]|] eqn:ST; [|discriminate].
+    inversion D; subst t' outs n. clear D.
+    assert (Hin : In c ps).
+    { rewrite <- Hps. unfold ports. rewrite map_app. apply in_or_app. right. left. reflexivity. }
+    assert (Hpc : port_ok c) by (rewrite Forall_forall in Hpo; exact (Hpo c Hin)).
+    assert (Hcc : contents_ok (c, st)).
+    { unfold cells_ok in Hcells. apply Forall_app in Hcells. destruct Hcells as [_ Hc2]. inversion Hc2; assumption. }
+    destruct (Hconf c Hin PM) as [Hcf Hca].
+    unfold owns in Ho. destruct (addr_match c path) as [idx|] eqn:Ha; [|discriminate].
+    destruct (undoable (pk c)) eqn:Hund.
+    + (* a numeric / option port *)
+      destruct (cell_set c st path idx args st' o s Hpc Hcc Hund Ha Hcf Hca Hloc ST)
+        as (old & new & V1 & V2 & Hc' & Go & Gn & Fr & Rec & _).
+      rewrite R in Rec. inversion Rec as [Es']. clear Rec.
+      pose proof (abs_update ps U t1 c st st' t2 path idx new H1s Hin Hm Ha Hn1 V2 Fr) as Habs.
+      assert (Hold : abs U (t1 ++ (c, st) :: t2) (47 :: path) = old).
+      { unfold abs. rewrite Z.eqb_refl, Hm. cbn [andb].
+        rewrite (lookup_here t1 c st t2 path Hn1); [rewrite V1; reflexivity|].
+        unfold owns. rewrite Ha. reflexivity. }
+      split; [cbn [fst]; rewrite (ports_replace t1 c st st' t2); exact Hps|].
+      split; [cbn [fst]; exact (cells_replace t1 c st st' t2 Hcells Hc')|].
+      cbn [fst snd]. destruct (old =? new) eqn:Eon.
+      * apply Z.eqb_eq in Eon. subst new s'. split; [|exact Hev].
+        apply (e_inv_ext _ _ _ Hei). intro a. rewrite Habs. unfold upd.
+        destruct (addr_eqb a (47 :: path)) eqn:E; [|reflexivity].
+        apply addr_eqb_eq in E. subst a. symmetry. exact Hold.
+      * apply Z.eqb_neq in Eon. subst s'. split.
+        { apply (e_inv_ext (upd (abs U (t1 ++ (c, st) :: t2)) (47 :: path) new)); [|exact Habs].
+          rewrite <- Hold. apply e_change; [exact Hei|]. rewrite Hold. exact Eon. }
+        destruct Hei as ([[Hok _] Ht] & _).
+        apply record_events; try assumption.
+        { intros h Hh Eh. rewrite Forall_forall in Hev.
+          destruct (Hev h Hh) as (p2 & c2 & i2 & A1 & A2 & A3 & A4 & A5 & A6 & A7 & A8).
+          rewrite Eh in A1. inversion A1; subst p2.
+          assert (c2 = c).
+          { apply (owner_unique ps c2 c path Hun A3 Hin); unfold owns; [rewrite A4|rewrite Ha]; reflexivity. }
+          subst c2.
+          exists path, c, idx. cbn [eaddr ety eold enew].
+          split; [reflexivity|]. split; [exact Hm|]. split; [exact Hin|]. split; [exact Ha|].
+          split; [exact Hund|]. split; [reflexivity|]. split; [exact A7|exact Gn]. }
+        { exists path, c, idx. cbn [eaddr ety eold enew].
+          split; [reflexivity|]. split; [exact Hm|]. split; [exact Hin|]. split; [exact Ha|].
+          split; [exact Hund|]. split; [reflexivity|]. split; [exact Go|exact Gn]. }
+    + (* a toggle or the alias of rParams: no event, nothing the store sees *)
+      destruct Hpc as (Hkind & _).
+      destruct Hkind as [Hk|Hk]; [rewrite Hk in Hund; discriminate|].
+      destruct (plain_step (pk c) (pe c) (47 :: path) path st args st' o Hk Hloc ST) as [Ue Hl].
+      rewrite record_outs_undo, Ue in R. cbn in R. inversion R; subst s'.
+      split; [cbn [fst]; rewrite (ports_replace t1 c st st' t2); exact Hps|].
+      split.
+      { cbn [fst]. apply (cells_replace t1 c st st' t2 Hcells). destruct Hcc as [L _].
+        split; cbn [fst snd] in *; [rewrite Hl; exact L|]. intro F. rewrite F in Hund. discriminate. }
+      split; [|exact Hev]. cbn [fst snd].
+      apply (e_inv_ext _ _ _ Hei). intro a. unfold abs. destruct a as [|x p']; [reflexivity|].
+      destruct ((x =? 47) && mem p' U); [|reflexivity].
+      assert (EL : lookup (t1 ++ (c, st') :: t2) p' = lookup (t1 ++ (c, st) :: t2) p').
+      { destruct (owns c p') eqn:Op; [|apply lookup_other; exact Op].
+        apply lookup_same_cell; [exact Op|]. unfold cell_value. cbn [fst snd]. rewrite Hund.
+        destruct (addr_match c p'); reflexivity. }
+      rewrite EL. reflexivity.
+Qed.
